@@ -470,10 +470,30 @@ fn exec1(env: &Env, s: &Stmt) -> Env {
             }
             // `@F` scenarios: every write is mirrored into a signal of the foreign root (two apps sharing state): inside a batch the
             // writes then go to the two roots in turn, and inside a computation the foreign root's effect runs nested in it
-            if via_foreign().is_some() {
+            if let Some(foreign) = via_foreign() {
                 if let Some(fs) = FOREIGN_SIGNAL.with(|f| f.get()) {
                     fs.set(fs.get_untracked() + 1);
                 }
+                // ... and a scope of the foreign root is created and disposed right here, possibly in the middle of a computation of
+                // the scenario's root; its cleanup reads every live signal of the scenario: cleanups run untracked, whoever is running
+                let sc = foreign.run_in(|| {
+                    create_child_scope(|| {
+                        on_cleanup(|| {
+                            let sigs: Vec<Signal<i64>> = REGISTRY
+                                .try_with(|r| match r.try_borrow() {
+                                    Ok(r) => r.values().filter_map(|b| if let Bind::Sig(s) = b { Some(*s) } else { None }).collect(),
+                                    Err(_) => Vec::new(),
+                                })
+                                .unwrap_or_default();
+                            for s in sigs {
+                                if s.is_alive() {
+                                    s.track();
+                                }
+                            }
+                        })
+                    })
+                });
+                sc.dispose();
             }
             env.clone()
         }
